@@ -150,6 +150,31 @@ def check_vector(v):
                         return EncodedRaggedArray(EncodedArray(cur.ravel(), encs[B]), cur.shape)
                     return EncodedArray(cur, encs[B])
                 o = outcome(rewrap)
+            elif op == "join":
+                def join():
+                    other_text = "".join(encs[B].get_alphabet())
+                    upper_ = [b - 32 if 97 <= b <= 122 else b for b in text]
+                    other = bnp.as_encoded_array(other_text, encs[B])
+                    if hasattr(cur, "lengths"):
+                        out = np.concatenate([cur, bnp.as_encoded_array([other_text], encs[B])])
+                        rows = [[ord(c) for c in r] for r in out.encoding.decode(out).tolist()]
+                        want_rows = [[ord(c) for c in r] for r in cur.encoding.decode(cur).tolist()] + [[ord(c) for c in other_text]]
+                    else:
+                        out = np.concatenate([cur, other])
+                        rows = [ord(c) for c in out.encoding.decode(out).to_string()]
+                        want_rows = upper_ + [ord(c) for c in other_text]
+                    if rows != want_rows or out.encoding != cur.encoding:
+                        raise _Silent(rows)
+                    return cur
+                try:
+                    o = ("ok", join())
+                except _Silent as e:
+                    bad.append({"what": "np.concatenate of arrays held in two encodings silently yields different letters", "tags": {"op": "join", "form": form, "from": hist[-2][1], "to": B},
+                                "vector": v, "expected": "the two texts one after the other, or an error", "observed": e.args[0]})
+                    st = "silent"          # already reported; nothing more to judge for this form
+                    break
+                except Exception as e:
+                    o = ("err", "%s: %s" % (type(e).__name__, e))
             elif op == "collect":
                 def collect():
                     other_text = "".join(encs[B].get_alphabet())
@@ -167,7 +192,7 @@ def check_vector(v):
                 except _Silent as e:
                     bad.append({"what": "collecting arrays of two encodings silently yields different letters", "tags": {"op": "collect", "form": form, "from": hist[-2][1], "to": B},
                                 "vector": v, "expected": "the two texts, or an error", "observed": e.args[0]})
-                    st = "raised"
+                    st = "silent"          # already reported; nothing more to judge for this form
                     break
                 except Exception as e:
                     o = ("err", "%s: %s" % (type(e).__name__, e))
@@ -180,6 +205,8 @@ def check_vector(v):
         tags = {"op": hist[-1][0], "form": form, "from": hist[-2][1] if len(hist) > 1 else None, "to": hist[-1][1]}
         if len(hist) > 1:
             nt.append("v|%s|%s" % (form, json.dumps([text, hist])))
+        if st == "silent":
+            continue
         if st == "raised":
             if hist[-1][0] in ("reverse", "scribble-reencode"):
                 bad.append({"what": "%s raised" % hist[-1][0], "tags": tags, "vector": v, "expected": "a value", "observed": o[1]})
@@ -239,7 +266,7 @@ def run(ctx):
     res = ctx.tlc("MC_C06", spec="SpecAll", constants={"AsBuilt": False, "MaxLen": 2 if quick else 3, "MaxOps": 3},
                   invariants=["TextPreserved", "CodesInRange", "AlphabetsWellFormed", "RoundTrip", "Emit"],
                   postcondition="EmitTables", coverage=True)
-    ctx.require_actions(res, "MC_C06", ["EncodeOp", "Retarget", "Change", "ReverseRows", "ScribbleThenEncodeAgain", "Rewrap", "Collect", "AssignFrom", "ReorderLabelList"])
+    ctx.require_actions(res, "MC_C06", ["EncodeOp", "Retarget", "Change", "ReverseRows", "ScribbleThenEncodeAgain", "Rewrap", "Collect", "Join", "AssignFrom", "ReorderLabelList"])
     r = core.run_tlc("MC_C06", ctx.work, tag="MC_C06_asbuilt", spec="Spec", expect_ok=False,
                      constants={"AsBuilt": True, "MaxLen": 1, "MaxOps": 2}, invariants=["TextPreserved"])
     if not any("TextPreserved is violated" in e for e in r.errors):
